@@ -7,6 +7,7 @@ import (
 	"encoding/json"
 	"fmt"
 	"os"
+	"path/filepath"
 	"sync"
 	"sync/atomic"
 	"testing"
@@ -283,11 +284,21 @@ func runGalaxy(c *c19Case) *overlapTracker {
 	conf := galaxy.JsonConf{NetworkConf: []map[string]interface{}{{"name": "neta", "type": "fake-a", "cniVersion": "0.2.0"},
 		{"name": "netb", "type": "fake-b", "cniVersion": "0.2.0"}, {"name": "netc", "type": "fake-c", "cniVersion": "0.2.0"}},
 		DefaultNetworks: []string{"neta", "netb"}}
+	// networks that exist only as files of the network conf dir (looked up per request, not loaded at start)
+	for _, n := range []string{"netd", "nete", "netf"} {
+		data, _ := json.Marshal(map[string]interface{}{"name": n, "type": "fake-a", "cniVersion": "0.2.0"})
+		_ = os.WriteFile(filepath.Join(genv.Dir, "conf", n+".conf"), data, 0644)
+	}
 	var pods []*corev1.Pod
 	for i := 0; i < 4; i++ {
 		ann := map[string]string{}
-		if i%2 == 1 {
+		switch i {
+		case 1:
 			ann["k8s.v1.cni.cncf.io/networks"] = "netb,netc@x1,neta"
+		case 2:
+			ann["k8s.v1.cni.cncf.io/networks"] = "netd,nete"
+		case 3:
+			ann["k8s.v1.cni.cncf.io/networks"] = "netf,netb,netd"
 		}
 		pods = append(pods, galaxysim.Pod("ns1", fmt.Sprintf("pod%d", i), ann, false))
 	}
